@@ -86,6 +86,14 @@ Theorem C06_unsatisfiable_operations_raise :
 Proof. exact refused_operations_raise. Qed.
 Print Assumptions C06_unsatisfiable_operations_raise.
 
+(* erase / emplace / range insert at a position BEFORE begin() (index -1, -2, ...; also end()-d on a vector with fewer
+   than d elements): the index is outside [0,size) resp. [0,size], the operation raises and changes nothing.  In the model
+   these are the operations OEraseBefore / OEmplaceBefore / OInsertRangeBefore of `op`, covered by every theorem above *)
+Theorem C06_positions_before_begin_raise : forall st,
+  erase_before st = (st, Raised) /\ emplace_before st = (st, Raised) /\ insert_range_before st = (st, Raised).
+Proof. exact positions_before_begin_raise. Qed.
+Print Assumptions C06_positions_before_begin_raise.
+
 Theorem C06_failed_single_op_unchanged : forall st, WInv st ->
   (forall p v st', nonfresh v -> append p v st = (st', Raised) -> st' = st) /\
   (forall p key v st', nonfresh v -> emplace p key v st = (st', Raised) -> st' = st) /\
